@@ -31,6 +31,9 @@ char g_hash_obj[8];              /* identity of the running hash object */
 KSI_DataHash *g_hash_p;          /* == (KSI_DataHash *)g_hash_obj, set by the harness */
 _Bool g_hash_live;
 _Bool g_env_failed;                /* an environment call returned an error */
+_Bool g_link_bad;                  /* the current link does not carry exactly one of imprint / legacy id / metadata */
+const void *g_last_add_ptr; size_t g_last_add_len;   /* what was handed to the hash function last */
+const unsigned char *g_ser_buf; size_t g_ser_len; int g_ser_opt;   /* metadata serialization record (job C03.addLinkImprint) */
 
 static size_t aggr_stub_length(KSI_LIST(KSI_HashChainLink) *l) { return g_len; }
 
@@ -41,6 +44,7 @@ static int aggr_stub_elementAt(KSI_LIST(KSI_HashChainLink) *l, size_t pos, KSI_H
 	g_link.levelCorrection = nondet_bool() ? &g_lc : NULL;     /* absent level correction == 0 */
 	g_link.imprint = (KSI_DataHash *)g_link_imprint_obj;
 	g_link_algo = nondet_int();
+	g_link_bad = nondet_bool();
 	if (g_isCalendar) spec_chain_step_cal(&g_ref, g_link.isLeft, g_link_algo);
 	else spec_chain_step_aggr(&g_ref, g_link.levelCorrection ? g_lc.value : 0);
 	g_calls++;
@@ -86,9 +90,17 @@ int KSI_DataHasher_addImprint(KSI_DataHasher *hasher, const KSI_DataHash *hsh) {
 }
 int KSI_DataHasher_add(KSI_DataHasher *hasher, const void *data, size_t data_length) {
 	__CPROVER_assert(hasher == (KSI_DataHasher *)g_hasher_obj && g_hasher_live, "hasher: add on the live hasher");
+#ifdef ENV_AGGR_ADD_IS_SIBLING
+	/* job C03.addLinkImprint: the only direct add is the sibling's bytes */
+	if (nondet_bool()) { g_env_failed = 1; return KSI_UNKNOWN_ERROR; }
+	g_last_add_ptr = data; g_last_add_len = data_length;
+	g_feed = g_feed * 4 + SPEC_FEED_SIBLING;
+#else
+	/* job C03.aggr*: the only direct add is the level byte */
 	__CPROVER_assert(data_length == 1, "feed: the level is exactly one byte");
 	g_level_byte = *(const unsigned char *)data;
 	g_feed = g_feed * 4 + SPEC_FEED_LEVEL;
+#endif
 	return KSI_OK;
 }
 int KSI_DataHasher_close(KSI_DataHasher *hasher, KSI_DataHash **hash) {
